@@ -450,7 +450,9 @@ func keepsFrame(op compiler.Opcode) bool {
     assume @builtin-results-are-values before if res != nil && (*res).Kind() != value.NullValueKind { :: res == nil || *res != nil
     loop "i < argc" invariant 0 <= i && i <= argc && len(self.Stack) == entry(len(self.Stack)) - i && (cap(args) == 0 || fresh(args)) && sameslice(self.Stack[:0], entry(self.Stack[:0]))
     modifies self.Stack, self.CallStack, self.MemoryPointer, self.ExceptionCatchLabels, self.tryStates, elems(self.tryStates), elems(self.Stack), elems(self.Memory), elems(self.CallStack), elems(self.ExceptionCatchLabels), heap(value.Value), mapcontent(self.parent.globals.Data)
-    ensures @interrupt-wellformed result != nil && instruction.Opcode() != compiler.Opcode_HostCall && instruction.Opcode() != compiler.Opcode_Call_Val ==> *result != nil
+    ensures @interrupt-wellformed result != nil ==> *result != nil
+    assume @host-call-interrupts-are-values after v, interrupt := self.hostCall( :: interrupt == nil || *interrupt != nil
+    assume @builtin-interrupts-are-values after res, i := fn.Callback( :: i == nil || *i != nil
     ensures @frames-on-interrupt result != nil ==> len(self.CallStack) == old(len(self.CallStack))
     requires disjoint(self.CallStack, self.ExceptionCatchLabels) && disjoint(self.Stack, self.Memory)
     requires self.Limits.MaxMemorySize < 1<<62
